@@ -771,8 +771,11 @@ func (g *GoFakeS3) createObject(bucket, object string, w http.ResponseWriter, r 
 
 	// hashingReader is still needed to get the ETag even if integrityCheck
 	// is set to false:
+	// (The request body is not closed here: net/http closes it once the answer
+	// is written. Closing it first, on the way to refusing the upload unread,
+	// makes net/http drain the body from the connection - and a client that
+	// said "Expect: 100-continue" sends none until it is answered.)
 	rdr, err := newHashingReader(reader, md5Base64)
-	defer r.Body.Close()
 	if err != nil {
 		return err
 	}
@@ -1018,7 +1021,7 @@ func (g *GoFakeS3) putMultipartUploadPart(bucket, object string, uploadID Upload
 		return ErrMissingContentLength
 	}
 
-	defer r.Body.Close()
+	// (r.Body is left to net/http to close, see createObject)
 	var rdr io.Reader = r.Body
 	partSize := r.ContentLength
 
